@@ -79,7 +79,28 @@ fn execute_memoized_function_impl<Db: Database>(
     derived_node_id: DerivedNodeId,
     inner_fn: InnerFn<Db>,
 ) -> DidRecalculate {
-    let (did_recalculate, time_updated) = if let Some((derived_node, revision)) = db
+    let (did_recalculate, time_updated) =
+        execute_memoized_function_without_registering(db, derived_node_id, inner_fn);
+    db.get_storage().register_dependency_in_parent_memoized_fn(
+        NodeKind::Derived(derived_node_id),
+        time_updated,
+    );
+    did_recalculate
+}
+
+/// Bring the [`DerivedNode`] up to date, without registering it as a dependency of whatever
+/// memoized function is currently executing. This is what verifying a dependency needs: the
+/// function whose dependencies are being verified is not executing (it has no frame on the
+/// dependency stack), so a registration would land in the dependency list of ITS caller, ahead
+/// of the dependency through which the caller actually reaches this node. The caller would
+/// then verify (and re-execute) this node even when it is no longer called at all, e.g. with a
+/// `SourceId` parameter whose source has been removed.
+fn execute_memoized_function_without_registering<Db: Database>(
+    db: &Db,
+    derived_node_id: DerivedNodeId,
+    inner_fn: InnerFn<Db>,
+) -> (DidRecalculate, Epoch) {
+    if let Some((derived_node, revision)) = db
         .get_storage()
         .internal
         .get_derived_node_and_revision(derived_node_id)
@@ -106,12 +127,7 @@ fn execute_memoized_function_impl<Db: Database>(
     } else {
         let _create_span = debug_span!("creating_new_derived_node").entered();
         create_derived_node(db, derived_node_id, inner_fn)
-    };
-    db.get_storage().register_dependency_in_parent_memoized_fn(
-        NodeKind::Derived(derived_node_id),
-        time_updated,
-    );
-    did_recalculate
+    }
 }
 
 fn create_derived_node<Db: Database>(
@@ -252,7 +268,8 @@ fn derived_node_changed_since<Db: Database>(
     } else {
         return true;
     };
-    let did_recalculate = execute_memoized_function_impl(db, derived_node_id, inner_fn);
+    let (did_recalculate, _) =
+        execute_memoized_function_without_registering(db, derived_node_id, inner_fn);
     matches!(
         did_recalculate,
         DidRecalculate::Recalculated | DidRecalculate::Error
